@@ -66,6 +66,9 @@ func runC01(r *oblig.Report) {
 	a.OrderCalls("R3.1", pfs)
 	e3order.SelfTest(r)
 	noPackageState(c.P, r, fs)
+	// the rendering is parsed again: every line of it reaches the parser (shared with C03/C09)
+	r.Rule("R9.1", "instance-table", "the pre-pass hands the parser every line of the text: split at the line breaks, one cleaned line per line, joined again", 3)
+	prePassClauses(c.P, r, "R9.1", "join", "one-line-out-per-line-in", "split", "line-loop")
 }
 
 func runC02(r *oblig.Report) {
@@ -110,6 +113,9 @@ func runC02(r *oblig.Report) {
 	r.Rule("C01.3", "instance-table", "nested operators are always printed inside parentheses", 6)
 	e5path.NestedInParens(c.P, r, "C01.3", fs)
 	noPackageState(c.P, r, fs)
+	// "parsing the DSL gives back the same model": every line of the produced text reaches the parser (shared with C03/C09)
+	r.Rule("R9.1", "instance-table", "the pre-pass hands the parser every line of the text: split at the line breaks, one cleaned line per line, joined again", 3)
+	prePassClauses(c.P, r, "R9.1", "join", "one-line-out-per-line-in", "split", "line-loop")
 }
 
 func runC03(r *oblig.Report) {
@@ -138,6 +144,8 @@ func runC03(r *oblig.Report) {
 	e5path.StackDiscipline(c.P, r, "C03.4", fs)
 	r.Rule("C03.5", "path-enumeration", "ParseExpression builds an operator node only around two or more operands; a single operand is handed back as it is (redundant parentheses change nothing)", 1)
 	e5path.SingleOperandUnwrapped(c.P, r, "C03.5")
+	r.Rule("R5.2c", "universe", "syntax errors are reported by the ANTLR runtime only: repository code neither calls the collecting listener's SyntaxError nor writes its Errors field elsewhere", 0)
+	e5path.OnlyRuntimeReportsSyntaxErrors(c.P, r, "R5.2c")
 	r.Rule("C03.6", "path-enumeration", "what the opening callback of a parenthesised group saves of the enclosing level is put back, all of it, when the group closes, and the enclosing level's operands are only moved back", 1)
 	e5path.GroupFrames(c.P, r, "C03.6")
 	w.LayoutVocabulary(r, "R8.8")
